@@ -119,6 +119,23 @@ PROPS = {
                         "the lock probe sees the mutexes named in the verif hook (connection, wire connection tables, stream state), not every lock of the library",
                         "the path-complete static lock-release lemma of the statement is not claimed (DESIGN.md section 5)"],
     },
+    "C10": {
+        "level": "exploration",
+        "groups": [g("main", "c10", q=16, t=32, run="^Test(Regress|Prop)$", gomaxprocs=[4, 2, 4, 16])],
+        "parallel": 16,
+        "timeout": {"quick": 600, "thorough": 3000},
+        "rule": ("generated: a prefix history over 0-2 upstreams and 0-2 downstreams (open, write, flush, read, metadata), 0-3 calls left pending in other "
+                 "goroutines (reads, flush, metadata, call, receive), optionally a link cut 0-3 half-keepalive-intervals before the close plan (reconnect "
+                 "/ resume in progress; instant or paced redial), then a close plan: stream closes and connection close in a generated order, with "
+                 "repeats, from 1-3 goroutines. Oracle: every call issued after the respective Close returned fails within 2 s (background context) with "
+                 "the documented sentinel (errors.Is ErrConnectionClosed / ErrStreamClosed, all ErrISCP), never panics, blocks or succeeds; repeated "
+                 "Close returns; pending calls end; nothing but pings after the client's Disconnect and no new ConnectRequest for 10 keepalive "
+                 "intervals; closed/disconnected notifications at most once per object/outage; goroutine census (runtime.Stack, library frames, "
+                 "not present before the case) reaches zero within 3 s after the peer side is closed too. Non-trivial = something pending at close "
+                 "time (blocked call, open stream, reconnect in progress) or concurrent/repeated Close; distinct by case hash."),
+        "assumptions": ["a call on a stream whose CONNECTION (not the stream) was closed may take up to 1 s to start failing (teardown follows asynchronously)",
+                        "the return value of a repeated Close is not constrained", "a blocked Close is C08's business: such a case is counted as aborted here"],
+    },
     "C11": {
         "level": "exploration",
         "groups": [g("main", "c11", q=4, t=16, run="^Test(SelfRegistry|Grid|EnumTotality|Random|TransportCounters)$")],
